@@ -1080,6 +1080,52 @@ def c09_family(tier, rnd):
                 [Text("F", *_P()), CLOSE]
             main = [Text("pre", *_P())] + [Open(um=("m1", 1, False), name="section", sattr=[]), Text("ign")] + fill + [CLOSE] + [Text("post", *_P())]
             build(main, m, al, "P9:%s:%s" % (where, bound), init={"x": S("c")} if bound else None)
+    # P10: the use-macro expression is evaluated at every use: one expression text (T1.macros[x]) naming different
+    # macros as the variable changes -- in a loop, under two definitions, inside a filler that re-defines the name
+    def two_macros(al):
+        return mk_macro(al, "a", ["s"]) + [Text("\n")] + mk_macro(al, "b", ["s", "s"], tag="p")
+    al = Alloc(tier)
+    main = [Text("pre"), Open(name="ul", sattr=[]), Open(um=(("var", "x"), 1, False), name="li", rep=(False, "x", al.call("repeat", [SEQ([S("a"), S("b")]),
+            SEQ([S("b"), S("a"), S("b")])])), sattr=[]), Text("ign")] + mk_fill("s", "s1") + [CLOSE, CLOSE, Text("post")]
+    build(main, two_macros(al), al, "P10:loop")
+    al = Alloc(tier)
+    main = [Text("pre")]
+    for v in ("a", "b", "a"):
+        main += [Open(name="div", define=[(False, "x", const(S(v)))], sattr=[]), Open(um=(("var", "x"), 1, False), name="section", sattr=[]), Text("ign")] + \
+            mk_fill("s", "s" + v) + [CLOSE, CLOSE]
+    build(main + [Text("post")], two_macros(al), al, "P10:defines")
+    al = Alloc(tier)
+    inner = [Open(name="em", define=[(False, "x", const(S("b")))], sattr=[]), Open(um=(("var", "x"), 1, False), name="article", sattr=[]), Text("ign"), CLOSE, CLOSE]
+    main = [Text("pre"), Open(name="div", define=[(False, "x", const(S("a")))], sattr=[]), Open(um=(("var", "x"), 1, False), name="section", sattr=[]),
+            Text("ign")] + mk_fill("s", "s1", body=inner) + [CLOSE, CLOSE, Text("post")]
+    build(main, two_macros(al), al, "P10:in-filler")
+    # P11: a filled slot rendered several times in one macro call (inside the macro's loop; two regions of one name with
+    # a definition between them): every region runs the filler in the scope of ITS place
+    yprobe = [Text("y=", pipe(var("y"), const(S("u0"))), ";")]
+    for filled in (True, False):
+        al = Alloc(tier)
+        m = [Open(dm="m1", name="ul", sattr=[]), Text("M["), Open(name="li", rep=(False, "y", al.call("repeat", [SEQ([S("a"), S("b"), S("c")]), SEQ([])])), sattr=[]),
+             Open(ds="s", name="span", sattr=[]), Text("D", *_P(("y",))), CLOSE, CLOSE, Text("]"), CLOSE]
+        main = [Text("pre")] + mk_use("m1", 1, [mk_fill("s", "s1", body=yprobe)] if filled else []) + [Text("post", *_P(("y",)))]
+        build(main, m, al, "P11:loop:%s" % filled)
+        al = Alloc(tier)
+        m = [Open(dm="m1", name="div", sattr=[]), Text("M["), Open(ds="s", name="span", sattr=[]), Text("D1", *_P(("y",))), CLOSE,
+             Open(name="p", define=[(False, "y", al.call("define", [S("b")]))], sattr=[]), Open(ds="s", name="span", sattr=[]), Text("D2", *_P(("y",))), CLOSE, CLOSE,
+             Open(name="p", define=[(False, "y", const(S("c")))], sattr=[]), Open(ds="s", name="span", sattr=[]), Text("D3"), CLOSE, CLOSE, Text("]"), CLOSE]
+        main = [Text("pre")] + mk_use("m1", 1, [mk_fill("s", "s1", body=yprobe)] if filled else []) + [Text("post")]
+        build(main, m, al, "P11:regions:%s" % filled, init={"y": S("a")})
+    # P12: statements on the define-slot element itself belong to the slot's default: a filler replaces the element
+    # as a whole (its local and global definitions are not made, its condition / repeat not evaluated)
+    for kind in ("define", "global", "repeat", "cond"):
+        for filled in (True, False):
+            al = Alloc(tier)
+            kw = {"define": [(False, "x", al.call("define", [S("b")]))]} if kind == "define" else \
+                {"define": [(True, "g", al.call("define", [S("c")]))]} if kind == "global" else \
+                {"rep": (False, "x", al.call("repeat", [SEQ([S("b"), S("c")])]))} if kind == "repeat" else \
+                {"cond": al.call("cond", [B(False), B(True)])}
+            m = [Open(dm="m1", name="div", sattr=[]), Text("M[", *_P()), Open(ds="s", name="span", sattr=[], **kw), Text("D", *_P()), CLOSE, Text("|", *_P()), Text("]"), CLOSE]
+            main = [Text("pre", *_P())] + mk_use("m1", 1, [mk_fill("s", "s1")] if filled else []) + [Text("post", *_P())]
+            build(main, m, al, "P12:%s:%s" % (kind, filled), init={"x": S("a")})
     # P8: macroname is bound to the name used, inside the macro only (machine oracle only)
     al = Alloc(tier)
     m = [Open(dm="m1", name="div", sattr=[]), Text("M[", var("macroname"), "]"), CLOSE]
